@@ -36,12 +36,14 @@ template <typename T> static void typed(ygm::comm &world, const std::string &nm,
   fputs(("R ty_max_" + nm + p + show<T>(world.all_reduce_max(ext)) + "\n").c_str(), stdout);
   fflush(stdout);
 }
+static int ygm_n = 0;
 static long inp(long seed, int r, int k) { return ((seed * 7919 + r * 104729 + k * 1299709) % 2001) - 1000; }
 
 int main(int argc, char **argv) {
   ygm::comm world(&argc, &argv);
   long seed = argc > 1 ? atol(argv[1]) : 1;
   int  me = world.rank(), n = world.size();
+  ygm_n = n;
   std::string p = " " + std::to_string(me) + " : ";
   long a = inp(seed, me, 0);
   line("R all_reduce_sum" + p + std::to_string(world.all_reduce_sum(a)));
@@ -82,7 +84,29 @@ int main(int argc, char **argv) {
   counter = 0;
   for (int d = 0; d < n; ++d) world.async(d, [](long v) { counter += v; }, (long)(me + 1));
   long s = ygm::sum(counter, world);      // every rank's counter must already hold n(n+1)/2
-  line("R sum_after_asyncs" + p + std::to_string(s) + " local=" + std::to_string(counter));
+  (void)s;     // the value reduced may legitimately be the one read at the call; what must hold is that the handlers have run
+  line("R sum_after_asyncs" + p + "local=" + std::to_string(counter));
+  {
+    // every free-function reduction first completes the outstanding asyncs: when it returns, the handlers of the asyncs issued
+    // before it (by every rank) have run here - observed through their side effect, not through the value reduced (some of
+    // the functions take their argument by value)
+    static long c_min = 0, c_max = 0, c_pfx = 0, c_and = 0, c_or = 0;     // one counter per call, never reset
+    for (int d = 0; d < n; ++d) world.async(d, [](long v) { c_min += v; }, 1L);
+    (void)ygm::min(1L, world);
+    line("R min_after_asyncs" + p + std::to_string(c_min));
+    for (int d = 0; d < n; ++d) world.async(d, [](long v) { c_max += v; }, 1L);
+    (void)ygm::max(1L, world);
+    line("R max_after_asyncs" + p + std::to_string(c_max));
+    for (int d = 0; d < n; ++d) world.async(d, [](long v) { c_pfx += v; }, 1L);
+    (void)ygm::prefix_sum(1L, world);
+    line("R prefix_sum_after_asyncs" + p + std::to_string(c_pfx));
+    for (int d = 0; d < n; ++d) world.async(d, [](long v) { c_and += v; }, 1L);
+    (void)ygm::logical_and(true, world);
+    line("R logical_and_after_asyncs" + p + std::to_string(c_and));
+    for (int d = 0; d < n; ++d) world.async(d, [](long v) { c_or += v; }, 1L);
+    (void)ygm::logical_or(false, world);
+    line("R logical_or_after_asyncs" + p + std::to_string(c_or));
+  }
   line("R sum" + p + std::to_string(ygm::sum(a, world)));
   line("R min" + p + std::to_string(ygm::min(a, world)));
   line("R max" + p + std::to_string(ygm::max(a, world)));
